@@ -240,3 +240,11 @@ Print Assumptions C16_error_reported_every_time.
 Example C16_cell_history_nonvacuous : cell_history_example.
 Proof. exact cell_history_example_holds. Qed.
 Print Assumptions C16_cell_history_nonvacuous.
+
+(* 8. the last sentence of C16 ("rows skipped through a false include_if are not evaluated at all") is FALSE of the faithful
+   model for an inclusion cell that yields a falsy object other than False: the row is excluded and evaluated all the same
+   (finding falsy-include_if-row-evaluated; candidate patch in design.d/FIX_falsy-include_if.md).  C16_excluded_row_not_evaluated
+   is the part that holds: the STRING "false". *)
+Theorem C16_falsy_include_if_row_is_evaluated_refuted : falsy_include_if_witness.
+Proof. exact falsy_include_if_witness_holds. Qed.
+Print Assumptions C16_falsy_include_if_row_is_evaluated_refuted.
